@@ -10,6 +10,22 @@ def main():
     ap.add_argument("--replay")
     a = ap.parse_args()
     seed = int(os.environ.get("VERIF_SEED", "0") or 0)
+    # watchdog: a check that does not terminate is a harness failure, never a silent pass
+    import signal, resource
+
+    def _timeout(*_):
+        print("HARNESS-ERROR watchdog: check exceeded its wall-clock budget")
+        os.killpg(os.getpgid(0), signal.SIGKILL)
+    try:
+        os.setpgrp()
+    except Exception:
+        pass
+    signal.signal(signal.SIGALRM, _timeout)
+    signal.alarm(int(os.environ.get("VERIF_WATCHDOG_S", "1500" if a.tier == "quick" else "14400")))
+    try:
+        resource.setrlimit(resource.RLIMIT_AS, (12 << 30, 12 << 30))   # inherited by workers
+    except Exception:
+        pass
     boot.load()
     if a.replay:
         with open(a.replay) as f:
